@@ -163,8 +163,8 @@ class BaseGrammar(
         grammar = self.__class__(self.name)
         grammar.to_namespaced = copy(self.to_namespaced)
         grammar.from_namespaced = copy(self.from_namespaced)
-        grammar._required_names = copy(self._required_names)
         self._copy(grammar)
+        grammar._required_names = RequiredNames(grammar, self._required_names)
         grammar._defaults.update(self._defaults)
         return grammar
 
